@@ -8,6 +8,10 @@ CHECKS = {
    "Seeded simulation of the real DirHandler/ZIP cache code on a scratch tree: the stored cache is truncated at sampled and (for a fixed small directory) every byte offset, zero-filled, or its writer is killed / hits ENOSPC inside write(); concurrent listings run under the deterministic scheduler with torn writes so a reader can observe a writer. Every later response must equal the sequential reference listing. Sampling, not proof, except the per-prefix sweep of the fixed directory.",
    "Trusts the simulator (simkit): crash granularity is write() calls plus explicit truncation; TLS/kernel TCP/fork are stubs; dbm.dumb is the only dbm back end here.",
    "deterministic simulation: crash-point / ENOSPC / torn-write injection at the file seam + seeded PCT scheduling of concurrent readers vs writer, reference-model comparison"),
+ "C12": ("fault_enumeration", "3.7",
+   "Seeded simulation of real directory listings over a scratch tree containing one or two unservable entries (dangling/looping symlink, FIFO, socket, names the security filter rejects, stat failing with ENOENT/EACCES/EIO after enumeration, deletion injected exactly between enumeration and the n-th stat/open of that entry) at varied sort positions, through every listing protocol, both directory handlers and both server types. The listing must succeed and every other entry must equal the reference listing. Fault kinds x positions are enumerated by index for the first runs and sampled afterwards.",
+   "Trusts the simulator; deletion races are injected at seam calls rather than by a free-running actor; FIFO open is modelled as blocking for ever.",
+   "deterministic simulation: per-entry fault injection at the stat/open/listdir seam (incl. vanish-at-call), real special files, reference-model comparison of parsed listings"),
 }
 
 NA = {
@@ -28,7 +32,6 @@ PENDING = {
  "C03": "claimed in DESIGN.md; check not built yet in this revision",
  "C07": "claimed in DESIGN.md; check not built yet in this revision",
  "C10": "claimed in DESIGN.md; check not built yet in this revision",
- "C12": "claimed in DESIGN.md; check not built yet in this revision",
  "C14": "claimed in DESIGN.md; check not built yet in this revision",
  "C19": "claimed in DESIGN.md; check not built yet in this revision",
  "C20": "claimed in DESIGN.md; check not built yet in this revision",
